@@ -98,6 +98,13 @@ func cmdFunc(args []string) {
 			dischargeAll(r.Obligations, *timeout, 0, true)
 			for _, o := range r.Obligations {
 				mark := "ok  "
+				if o.Kind == "vacuity" {
+					if o.Result == "unsat" {
+						fmt.Printf("VACUOUS %s\n", o.Name)
+						bad++
+					}
+					continue
+				}
 				if o.Result != "unsat" {
 					mark = "FAIL"
 					bad++
@@ -159,8 +166,6 @@ func verifyAllModes(prog *Program, fi *FuncInfo, fc *FuncContract) []*VerifyResu
 	return out
 }
 
-func cmdCheck(args []string)    { fmt.Println("not implemented"); os.Exit(2) }
-func cmdReplay(args []string)   { fmt.Println("not implemented"); os.Exit(2) }
 func cmdSelftest(args []string) { fmt.Println("not implemented"); os.Exit(2) }
 
 var _ = sort.Strings
